@@ -28,6 +28,7 @@ type TEnv struct {
 	vars map[string]TV
 	pkg  *ssa.Package
 	errs []string
+	macroParams map[string]bool // parameters of the macro whose body is being translated
 }
 
 func (vc *VC) newTEnv(st, old *State, pkg *ssa.Package) *TEnv {
@@ -203,12 +204,22 @@ func (te *TEnv) term(e Expr) TV {
 func (te *TEnv) ident(name string) TV {
 	vc := te.vc
 	if tv, ok := te.vars[name]; ok {
+		if len(vc.readLogs) > 0 && !te.macroParams[name] {
+			if tv.ip != nil || tv.sort == "" {
+				vc.logRead("!", "", "")
+			} else {
+				vc.logRead("V:"+name, tv.t, tv.sort)
+			}
+		}
 		return tv
 	}
 	if s, ok := vc.eng.specs.ghostSort[name]; ok {
 		return TV{t: vc.ghostGet(te.st, name), sort: s}
 	}
 	if name == "alloc" {
+		if len(vc.readLogs) > 0 {
+			vc.logRead("A:", te.st.alloc, sortInt)
+		}
 		return TV{t: te.st.alloc, sort: sortInt}
 	}
 	if te.pkg != nil {
@@ -512,18 +523,30 @@ func (te *TEnv) call(x *ECall) TV {
 				}
 			}
 		}
+		inner.errs = nil
 		inner.vars = make(map[string]TV, len(te.vars)+len(m.Params))
 		for k, v := range te.vars {
 			inner.vars[k] = v
 		}
+		inner.macroParams = map[string]bool{}
+		var argTVs []TV
 		for i, p := range m.Params {
 			a := arg(i)
 			a = te.named(a, "m_"+p)
 			inner.vars[p] = a
+			inner.macroParams[p] = true
+			argTVs = append(argTVs, a)
 		}
+		var reads []readRec
+		vc.readLogs = append(vc.readLogs, &reads)
 		r := inner.term(m.Body)
+		vc.readLogs = vc.readLogs[:len(vc.readLogs)-1]
 		te.errs = append(te.errs, inner.errs...)
-		return te.named(r, "m_"+m.Name)
+		res := te.named(r, "m_"+m.Name)
+		if res.t != r.t {
+			vc.macroHandle(m.Name, res, argTVs, reads)
+		}
+		return res
 	}
 	switch x.Fn {
 	case "len":
@@ -598,6 +621,26 @@ func (te *TEnv) call(x *ECall) TV {
 		}
 		fr := &frame{vc: vc}
 		return TV{t: fr.unboxIface(t, a.t), sort: reg.sortOf(t), gt: t}
+	case "ptrto":
+		// ptrto(x, "*T"): the integer reference x (e.g. a ghost) viewed as a pointer of type *T
+		if need(2) {
+			s, ok := x.Args[1].(*EStr)
+			if !ok {
+				return te.fail("ptrto needs a type string")
+			}
+			t := te.resolveType(s.V)
+			if t == nil {
+				return te.fail("unknown type %q", s.V)
+			}
+			if _, isPtr := types.Unalias(t).Underlying().(*types.Pointer); !isPtr {
+				return te.fail("ptrto needs a pointer type, got %s", s.V)
+			}
+			a := arg(0)
+			if a.sort != sortInt {
+				return te.fail("ptrto needs a reference (Int), got %s", a.sort)
+			}
+			return TV{t: a.t, sort: sortInt, gt: t}
+		}
 	case "box":
 		// box(x, "T"): interface value holding x with dynamic type T
 		if need(2) {
